@@ -97,6 +97,18 @@ def handleF (F : FieldImpl) : List String → String
     match n.toNat? with
     | some n => conv F (F.tryFrom n)
     | _ => "bad-op"
+  | ["serdede", n] =>          -- serde: `try_from` of the integer (build variant `serde` of the harness)
+    match n.toNat? with
+    | some n => conv F (F.tryFrom n)
+    | _ => "bad-op"
+  | ["serdeser", a] =>
+    match a.toNat? with
+    | some a => toString (F.asInt (F.new a))
+    | _ => "bad-op"
+  | ["rserdeser", a] =>
+    match a.toNat? with
+    | some a => toString (F.asInt a)
+    | _ => "bad-op"
   | ["frombytes", h] =>
     match unhex h with
     | some bs => conv F (F.tryFromBytes bs)
